@@ -28,6 +28,12 @@ RC_Init == /\ subs \in Menu /\ nIds = 1 /\ fixed = {} /\ phase = "raw" /\ tb = <
            /\ dimCustom = FALSE /\ parCustom = FALSE /\ nrc = 0 /\ rhist = <<>>
 
 Rebuild == phase' = "raw" /\ tb' = <<>>
+\* A sub-model has a history of its own BEFORE it is composed: leaf j was told set_n_ids(n).  A composite models ONE number
+\* of individuals -- the one any of its parts was built for -- and every part follows it (the tables of PopLayout are
+\* functions of the single nIds).  First step of a behaviour only; recorded as <<"pre", 10 * j + n>>.
+RC_Pre(j, n) == /\ phase = "raw" /\ nrc = 0 /\ rhist = <<>> /\ nIds = 1 /\ n > 1 /\ j \in 1..Len(subs)
+                /\ nIds' = n /\ rhist' = <<<<"pre", 10 * j + n>>>> /\ nrc' = 1
+                /\ UNCHANGED <<subs, fixed, phase, tb, dimCustom, parCustom>>
 RC_SetNIds(n) == /\ Built /\ nrc < MaxOps /\ n # nIds
                  /\ nIds' = n /\ fixed' = IF HasH THEN {} ELSE fixed
                  /\ Rebuild /\ rhist' = Append(rhist, <<"nids", n>>) /\ nrc' = nrc + 1
@@ -47,6 +53,7 @@ RC_ParNames(b) == /\ Built /\ nrc < MaxOps /\ b # parCustom
 
 RC_Next == \/ (Build \/ NameIt) /\ UNCHANGED <<dimCustom, parCustom, nrc, rhist>>
            \/ \E n \in 1..MaxIds : RC_SetNIds(n)
+           \/ \E j \in 1..3, n \in 2..MaxIds : RC_Pre(j, n)
            \/ \E k \in 1..12 : RC_Fix(k) \/ RC_Release(k)
            \/ \E b \in BOOLEAN : RC_DimNames(b) \/ RC_ParNames(b)
 RC_Spec == RC_Init /\ [][RC_Next]_rcvars
